@@ -51,5 +51,6 @@ def run(ctx):
         "add_partitions, add_topic (pattern match appears), coordinator failover with/without state, error / "
         "drop_before / drop_after / lose_reply / delay faults on JoinGroup, SyncGroup, Heartbeat, OffsetCommit, "
         "OffsetFetch, FindCoordinator, Fetch, ListOffsets aimed at single members, a producer (25 % transactional) "
-        "appending during the run. non-trivial = ≥2 generations, ≥1 delivery, ≥1 commit; distinct by (scenario, sizes)")
+        "appending during the run, raising key/value deserializers and CRC-corrupted fetch batches (the application "
+        "catches the exception and keeps polling). non-trivial = ≥2 generations, ≥1 delivery, ≥1 commit; distinct by (scenario, sizes)")
     G.run_check(ctx, "C05", CLAUSE.get, n_quick=100, n_thorough=4000)
